@@ -31,14 +31,19 @@ META = {
              'reached?) signature; (b) whole runs through main() with hook snapshots over hydraulic model x pumped/flash x '
              'overpressure/split reservoir x artesian/thermosiphon settings; non-trivial = distinct (model, pumping, which clamps '
              'are active, overpressure) signature; (c) diameter sweeps of the real WellPressureDrop/InjectionWellPressureDrop with '
-             'random temperature/flow/depth incl. laminar flow and the regime switch; non-trivial = distinct (regime pair, well)'),
+             'random temperature/flow/depth incl. laminar flow and the regime switch; non-trivial = distinct (regime pair, well); '
+             '(d) the four hydraulic functions (index and impedance model, production and injection) called on the real friction '
+             'factors with everything equal but one diameter, with and without the friction term, plus whole-run pairs through '
+             'main() differing in one well diameter (Ramey off): pump pressure, its friction share and pumping power must not grow'),
     'trusted_base': ['Coq 8.16.1 kernel + vm_compute (no native_compute)',
                      'all C15 theorems: Closed under the global context (no axioms)',
                      'hand-written models coq/Model/Pressure.v, Pumping.v, Friction.v tied to WellBores.py by exact-call and '
                      'snapshot correspondence evaluated in the kernel (tools/props/C15.py: unverified Python)'],
     'modelled': ['WellBores.ReservoirPressurePredictor', 'WellBores.InjectionReservoirPressurePredictor',
                  'overpressure branch of WellBores.Calculate', 'pumping-power formulas and clamps of both hydraulic models',
-                 'Darcy-Weisbach pressure loss and laminar friction factor; CoolProp density/viscosity, Colebrook iterate, pi: data'],
+                 'Darcy-Weisbach pressure loss and laminar friction factor; CoolProp density/viscosity, Colebrook iterate, pi: data',
+                 'composition of DPProdWell / DPInjWell / DPOverall from friction, gravity, drawdown and wellhead terms in the four '
+                 'hydraulic functions (vapour pressure / wellhead and plant-outlet pressure: data)'],
     'assumptions': ['float rounding of the arithmetic is not modelled (predictors are also executed on exact rationals)',
                     'int((100.0/rate)*k) is computed in floats by the code; inputs where float and exact truncation differ '
                     '(e.g. rate 0.07, k 21: 29999 vs 30000) are counted and only checked qualitatively',
@@ -47,6 +52,12 @@ META = {
         'ReservoirPressurePredictor', 'InjectionReservoirPressurePredictor', 'WellPressureDrop', 'InjectionWellPressureDrop',
         'ProdPressureDropsAndPumpingPowerUsingImpedenceModel', 'InjPressureDropsAndPumpingPowerUsingImpedenceModel',
         'ProdPressureDropAndPumpingPowerUsingIndexes', 'InjPressureDropAndPumpingPowerUsingIndexes', 'WellBores.Calculate')],
+}
+META['level_text'] += (' The friction term is proved to enter every pump pressure with a plus sign (C15_friction_enters_with_plus_sign), so pump '
+                       'pressure and clamped pumping power of both models never grow with the diameter under the same premise '
+                       '(C15_prod/inj_pump_vs_diameter_partial, C15_impedance_vs_friction); tied by calling the four real hydraulic functions '
+                       'with and without friction over diameter sweeps and by whole-run pairs differing in one diameter.')
+_ = {
 }
 
 TOL = F(1, 10 ** 9)
@@ -452,6 +463,153 @@ def check_friction(ctx, specs):
 
 
 # ------------------------------------------------------------------------------------------------
+# (d) how the friction term enters pump pressure and pumping power: the four hydraulic functions called on the output of
+#     the real WellPressureDrop / InjectionWellPressureDrop, everything equal but one well diameter
+# ------------------------------------------------------------------------------------------------
+def pump_spec(ctx):
+    rnd = ctx.rng
+    dec = lambda lo, hi, d=2: configs.dec(rnd, lo, hi, d)
+    s = {'part': 'pump', 'vary': rnd.choice(['prod', 'inj']), 'depth': dec(1000, 5000, 0), 'q': dec(10, 120, 1),
+         'Tprod': [dec(90, 230, 1) for _ in range(3)], 'Tinj': dec(30, 90, 1), 'Trock': dec(100, 350, 0),
+         'nprod': rnd.randint(1, 4), 'ninj': rnd.randint(1, 4), 'wl': dec(0, 0.1, 2), 'eff': dec(0.6, 0.9, 2),
+         'PI': dec(3, 15, 1), 'II': dec(3, 15, 1), 'imp': dec(0.2, 300, 1), 'rhores': dec(850, 990, 1),
+         'pwh': dec(300, 6000, 0), 'usepp': rnd.random() < 0.5, 'useout': rnd.random() < 0.5, 'pout': dec(300, 5000, 0),
+         'phyd': [dec(9000, 50000, 0) for _ in range(3)], 'pinj': [dec(5000, 40000, 0) for _ in range(3)],
+         'dfixed': dec(0.1, 0.3, 3), 'diam': []}
+    d = dec(0.06, 0.12, 3)
+    while len(s['diam']) < 4 and d <= 0.42:
+        s['diam'].append(round(d, 4))
+        d *= 1 + dec(0.12, 0.6, 2)
+    return s
+
+
+def pump_cases(s):
+    """one record per diameter: what the real functions return with the real friction factors and with friction switched off"""
+    import contextlib
+    import io
+    import numpy as np
+    from geophires_x.GeoPHIRESUtils import quantity, static_pressure_MPa
+    W = _W()
+    P = quantity(static_pressure_MPa(1000.0, s['depth']), 'MPa')
+    ns = types.SimpleNamespace
+    wb = ns(ProducedTemperature=ns(value=[0.0] * 3), injection_reservoir_pressure=ns(value=list(s['pinj'])),
+            production_reservoir_pressure=ns(quantity=lambda: quantity(np.array(s['phyd']), 'kPa')))
+    model = ns(reserv=ns(hydrostatic_pressure=lambda: P), wellbores=wb, logger=ns(warning=lambda *a, **k: None))
+    q, depth, nprod, ninj, wl, eff = (s[k] for k in ('q', 'depth', 'nprod', 'ninj', 'wl', 'eff'))
+    out = []
+    for d in s['diam']:
+        dp_, di_ = (d, s['dfixed']) if s['vary'] == 'prod' else (s['dfixed'], d)
+        _, f3, vp, rhop = W.WellPressureDrop(model, np.array(s['Tprod']), q, dp_, True, depth)
+        _, f1, vi, rhoi = W.InjectionWellPressureDrop(model, s['Tinj'], q, di_, True, depth, nprod, ninj, wl)
+        r = {'d': _f(d), 'desc': s}
+        with contextlib.redirect_stdout(io.StringIO()):
+            for tag, k3, k1 in (('', 1.0, 1.0), ('0', 0.0, 0.0)):   # '0': same calls without friction
+                _, ppp, dpp, pwh = W.ProdPressureDropAndPumpingPowerUsingIndexes(
+                    model, True, s['usepp'], s['Trock'], depth, s['pwh'], s['PI'], q, f3 * k3, vp, dp_, nprod, eff, rhop)
+                ppi, dpi, pout, _ = W.InjPressureDropAndPumpingPowerUsingIndexes(
+                    model, True, s['usepp'], s['useout'], s['Trock'], depth, s['pwh'], s['II'], q, f1 * k1, vi, di_, nprod, ninj, wl,
+                    eff, rhoi, s['pout'])
+                dpo, _, dppw, _, _ = W.ProdPressureDropsAndPumpingPowerUsingImpedenceModel(
+                    f3 * k3, vp, rhoi, rhop, s['rhores'], depth, q, dp_, s['imp'], nprod, wl, eff)
+                dpo2, ppimp, dpiw = W.InjPressureDropsAndPumpingPowerUsingImpedenceModel(f1 * k1, vi, rhoi, depth, q, di_, ninj, wl, eff, dpo)
+                L = lambda x: _f(np.asarray(x, dtype=float).tolist())
+                r.update({'dpp' + tag: L(dpp), 'ppp' + tag: L(ppp), 'dpi' + tag: L(dpi), 'ppi' + tag: L(ppi), 'dpo' + tag: L(dpo2),
+                          'ppimp' + tag: L(ppimp), 'dppw' + tag: L(dppw), 'dpiw' + tag: L(dpiw)})
+        f3, vp, rhop, f1, vi, rhoi = (L(x) for x in (f3, vp, rhop, f1, vi, rhoi))
+        r['flat'] = {
+            'run_prod_index': ([F(3), F(1), _f(pwh), _f(q), _f(s['PI']), _f(depth), _f(dp_), F(nprod), _f(eff)] + _f(s['phyd']) + f3 + vp + rhop,
+                               r['dpp'] + r['ppp']),
+            'run_inj_index': ([F(3), _f(q), _f(wl), F(nprod), F(ninj), _f(s['II']), _f(depth), _f(di_), _f(eff), _f(pout)] + _f(s['pinj'])
+                              + f1 + vi + rhoi, r['dpi'] + r['ppi'])}
+        r['imp'] = [([_f(q), _f(wl), F(nprod), F(ninj), _f(eff), _f(s['imp']), _f(s['rhores']), _f(depth), _f(dp_), _f(di_),
+                      f3[i], vp[i], rhop[i], f1[i], vi[i], rhoi[i]], [r['dppw'][i], r['dpiw'][i], r['dpo'][i], r['ppimp'][i]]) for i in range(3)]
+        out.append(r)
+    return out
+
+
+def check_pump(ctx, specs):
+    groups = [pump_cases(s) for s in specs]
+    mk = lambda fl, out, s: {'flat': fl, 'impl': ('V', out), 'desc': s, 'nontrivial': None}
+    for run in ('run_prod_index', 'run_inj_index'):
+        cs = [mk(*r['flat'][run], r['desc']) for g in groups for r in g]
+        flatcorr.run(ctx, 'pump-' + run, ['Model.WellDP'], run, TOL, cs, kind='corr', shard=_shard(len(cs)),
+                     key_of=lambda c, run=run: f'pump:composition:{run}',
+                     what='pump pressure / power of the index model is not (other terms) + friction as in the Coq model')
+    cs = [mk(fl, out, r['desc']) for g in groups for r in g for fl, out in r['imp']]
+    flatcorr.run(ctx, 'pump-run_imp_step', ['Model.WellDP'], 'run_imp_step', TOL, cs, kind='corr', shard=_shard(len(cs)),
+                 key_of=lambda c: 'pump:composition:impedance', what='impedance-model pressure drops / power differ from the Coq model')
+    sub = lambda a, b: [x - y for x, y in zip(a, b)]
+    terms, owners = [], []
+    for g in groups:
+        v = g[0]['desc']['vary']
+        for a, b in zip(g, g[1:]):
+            series = ([('friction share of the production pump pressure', sub(a['dpp'], a['dpp0']), sub(b['dpp'], b['dpp0'])),
+                       ('production pump pressure DPProdWell', a['dpp'], b['dpp']), ('PumpingPowerProd', a['ppp'], b['ppp']),
+                       ('impedance-model DPProdWell', a['dppw'], b['dppw'])] if v == 'prod' else
+                      [('friction share of the injection pump pressure', sub(a['dpi'], a['dpi0']), sub(b['dpi'], b['dpi0'])),
+                       ('injection pump pressure DPInjWell', a['dpi'], b['dpi']), ('PumpingPowerInj', a['ppi'], b['ppi']),
+                       ('impedance-model DPInjWell', a['dpiw'], b['dpiw'])])
+            series += [('friction share of the impedance-model overall drop', sub(a['dpo'], a['dpo0']), sub(b['dpo'], b['dpo0'])),
+                       ('impedance-model pumping power', a['ppimp'], b['ppimp'])]
+            for nm, xa, xb in series:
+                terms.append(f'le_series {QL(xb)} {QL(xa)}')
+                owners.append((a, b, nm, xa, xb))
+            ctx.count('pump-vs-diameter', evaluations=len(series), nontrivial_keys=[(v, any(x > 0 for x in b['ppp']), any(x > 0 for x in b['ppi']),
+                                                                                    any(x > 0 for x in b['ppimp']))])
+    bad = fw.kernel_bools(ctx, 'pump_checkers', ['Model.Friction'], terms, shard=_shard(len(terms)))
+    for i in bad[:6]:
+        a, b, nm, xa, xb = owners[i]
+        s = a['desc']
+        ctx.violate('property', f'pump:{nm}:grows-with-{s["vary"]}-well-diameter',
+                    f'{nm} grows when only the {s["vary"]} well diameter grows from {float(a["d"])} to {float(b["d"])} m '
+                    f'(real hydraulic functions, all other arguments equal): {s}', inp={'desc': dict(s, diam=[float(a['d']), float(b['d'])])},
+                    expected='value at the larger diameter <= value at the smaller one, at every step',
+                    observed={'smaller_d': [float(x) for x in xa], 'larger_d': [float(x) for x in xb]})
+
+
+# whole runs through main() that differ in one well diameter only (Ramey off: fluid properties do not depend on it)
+def pair_configs(ctx):
+    out = []
+    for i in range(ctx.n(6, 40)):
+        hyd = 'idx' if i % 3 else 'imp'
+        c = make_config(ctx, hyd, False, None)
+        p = dict(l.split(', ', 1) for l in c['text'].splitlines())
+        p['Ramey Production Wellbore Model'] = 0
+        p.setdefault('Production Wellbore Temperature Drop', 3.0)
+        which = ['Production Well Diameter', 'Injection Well Diameter'][i % 2]
+        small = configs.dec(ctx.rng, 5, 9, 1)
+        texts = []
+        for dval in (small, round(small * configs.dec(ctx.rng, 1.2, 1.8, 2), 2)):
+            p[which] = dval
+            texts.append(runner.params_to_text(p))
+        out.append({'part': 'runpair', 'tag': c['tag'], 'which': which, 'texts': texts})
+    return out
+
+
+def check_pairs(ctx, pairs, results):
+    terms, owners = [], []
+    for pr, (ra, rb) in zip(pairs, zip(results[0::2], results[1::2])):
+        if ra['snap'] is None or rb['snap'] is None:
+            ctx.count('run-pairs', rejected=str(ra['error'] or rb['error'])[:40])
+            continue
+        A, B = snapshot.S(ra['snap']), snapshot.S(rb['snap'])
+        imp = bool(A.v('wellbores', 'impedancemodelused'))
+        names = (['DPProdWell'] if 'Production' in pr['which'] else ['DPInjWell']) + (
+            ['DPOverall', 'PumpingPower'] if imp else ['PumpingPowerProd' if 'Production' in pr['which'] else 'PumpingPowerInj', 'PumpingPower'])
+        n = len(A.v('wellbores', 'PumpingPower'))
+        for nm in names:
+            terms.append(f'le_series {QL(_series(B.v("wellbores", nm), n))} {QL(_series(A.v("wellbores", nm), n))}')
+            owners.append((pr, nm))
+        ctx.count('run-pairs', evaluations=1, nontrivial_keys=[(imp, pr['which'])])
+    bad = fw.kernel_bools(ctx, 'pair_checkers', ['Model.Friction'], terms, shard=_shard(len(terms)))
+    for i in bad[:6]:
+        pr, nm = owners[i]
+        ctx.violate('property', f'run-pair:{nm}:grows-with:{pr["which"]}:{pr["tag"].split("/")[0]}',
+                    f'{nm} grows at some time step when only {pr["which"]} is enlarged ({pr["tag"]} run, Ramey off)',
+                    inp={'desc': pr}, expected=f'{nm} of the larger-diameter run <= that of the smaller-diameter run', observed=terms[i][:300])
+
+
+# ------------------------------------------------------------------------------------------------
 def correspondence(ctx, proofs_ok=True):
     import time
     W, t = _W(), [time.time()]
@@ -461,10 +619,13 @@ def correspondence(ctx, proofs_ok=True):
     specs = json.loads((CORPUS / 'friction_seeds.json').read_text()) + [sweep_spec(ctx) for _ in range(ctx.n(45, 700))]
     check_friction(ctx, specs)
     lap('friction sweeps')
-    cfgs = run_configs(ctx)
-    results = runner.run_many(ctx, [c['text'] for c in cfgs])
+    check_pump(ctx, json.loads((CORPUS / 'pump_seeds.json').read_text()) + [pump_spec(ctx) for _ in range(ctx.n(14, 300))])
+    lap('hydraulic functions vs diameter')
+    cfgs, pairs = run_configs(ctx), pair_configs(ctx)
+    results = runner.run_many(ctx, [c['text'] for c in cfgs] + [t for pr in pairs for t in pr['texts']])
     lap('whole runs')
-    check_runs(ctx, cfgs, results)
+    check_runs(ctx, cfgs, results[:len(cfgs)])
+    check_pairs(ctx, pairs, results[len(cfgs):])
     lap('snapshot checks')
 
 
@@ -485,6 +646,7 @@ def search(ctx):
     check_pred(ctx, cs, equality=False)   # property clauses only
     rnd_specs = [sweep_spec(ctx) for _ in range(200)]
     check_friction(ctx, rnd_specs)
+    check_pump(ctx, [pump_spec(ctx) for _ in range(60)])
     ctx.note(f'search: {len(cs)} predictor calls, {len(rnd_specs)} diameter sweeps, {len(ctx.violations) - n0} new entries')
 
 
@@ -499,6 +661,17 @@ def replay(ctx, data):
         for c in sweep_cases(d):
             print('d =', float(c['d']), 'laminar' if c['lam'] else 'turbulent', 'f =', [float(x) for x in c['f']], 'DP[kPa] =', [float(x) for x in c['dp']])
         check_friction(ctx, [d])
+    elif part == 'pump':
+        for r in pump_cases(d):
+            print('d =', float(r['d']), {k: [round(float(x), 4) for x in r[k]] for k in ('dpp', 'dpp0', 'ppp', 'dpi', 'dpi0', 'ppi', 'dpo', 'ppimp')})
+        check_pump(ctx, [d])
+    elif part == 'runpair':
+        rs = runner.run_many(ctx, d['texts'])
+        for t, r in zip(('smaller', 'larger'), rs):
+            S = snapshot.S(r['snap']) if r['snap'] else None
+            print(t, d['which'], ':', {a: (S.v('wellbores', a)[:3] if isinstance(S.v('wellbores', a), list) else S.v('wellbores', a))
+                                      for a in ('DPProdWell', 'DPInjWell', 'PumpingPowerProd', 'PumpingPowerInj', 'PumpingPower')} if S else r['error'])
+        check_pairs(ctx, [d], rs)
     elif part == 'run':
         r = runner.run_many(ctx, [d['text']])[0]
         print('run:', 'ok' if r['ok'] else r['error'])
